@@ -174,7 +174,9 @@ fn main_loop(connection: Connection, params: serde_json::Value) -> LspResult<()>
                 eprintln!("Got notification: {}", not.method);
                 let not = match cast_notification::<DidOpenTextDocument>(not) {
                     CastResult::Match(params) => {
-                        let analyzer = SourceFileAnalyzer::analyze(params.text_document.text);
+                        let analyzer = SourceFileAnalyzer::analyze_lines(split_document_lines(
+                            &params.text_document.text,
+                        ));
                         let diagnostics = analyze_source_file(&analyzer);
                         files.insert(params.text_document.uri.to_string(), analyzer);
                         send_notification::<PublishDiagnostics>(
@@ -193,7 +195,9 @@ fn main_loop(connection: Connection, params: serde_json::Value) -> LspResult<()>
                     CastResult::Match(params) => {
                         // TODO: I think we only get one change b/c we're using TextDocumentSyncKind::FULL but not sure...
                         if let Some(last_change) = params.content_changes.into_iter().last() {
-                            let analyzer = SourceFileAnalyzer::analyze(last_change.text);
+                            let analyzer = SourceFileAnalyzer::analyze_lines(split_document_lines(
+                                &last_change.text,
+                            ));
                             let diagnostics = analyze_source_file(&analyzer);
                             files.insert(params.text_document.uri.to_string(), analyzer);
                             send_notification::<PublishDiagnostics>(
@@ -238,6 +242,27 @@ fn send_request_failed_error(
             data: None,
         }),
     }))
+}
+
+/// Splits a document into lines the same way LSP clients do: "\r\n", "\n"
+/// and "\r" all terminate a line.
+fn split_document_lines(text: &str) -> Vec<String> {
+    let mut lines = vec![];
+    let mut line = String::new();
+    let mut chars = text.chars().peekable();
+    while let Some(c) = chars.next() {
+        match c {
+            '\r' | '\n' => {
+                if c == '\r' && chars.peek() == Some(&'\n') {
+                    chars.next();
+                }
+                lines.push(std::mem::take(&mut line));
+            }
+            _ => line.push(c),
+        }
+    }
+    lines.push(line);
+    lines
 }
 
 /// Converts a byte offset into the given line to an LSP column, which is
